@@ -185,6 +185,13 @@ func runC03(c *an.Ctx) {
 					}
 				}
 			}
+			// … or the token comes out of a local list into which only tokens known to be itemText are put
+			// (the white space set aside while looking for extends/import clauses)
+			if sel, isSel := an.Unparen(s.Call.Args[1]).(*ast.SelectorExpr); !ok && isSel && p.FieldKey(info, sel) == "item.val" {
+				if id, isId := an.Unparen(sel.X).(*ast.Ident); isId {
+					ok = c03textOnlyList(c, s.Fn, an.ObjOf(s.Fn.Info(), id))
+				}
+			}
 			c.Check(ok, "C03.identity", s.Fn.Name+"→newText", s.Call.Pos(), "a text node is built from an itemText token's val, unchanged", "newText is not called with the unmodified val of an itemText token")
 		}
 	}
@@ -643,6 +650,70 @@ func c03storedPaths(p *an.Prog, g *an.Fn) map[int]string {
 		return true
 	})
 	return out
+}
+
+// c03textOnlyList: elem is the value variable of a range over a local slice, and every element ever
+// appended to that slice is a token whose typ is known to be itemText where it is appended.
+func c03textOnlyList(c *an.Ctx, f *an.Fn, elem types.Object) bool {
+	p := c.P
+	info := f.Info()
+	if elem == nil {
+		return false
+	}
+	var list types.Object
+	an.InspectOwn(f, func(n ast.Node) bool {
+		if rs, ok := n.(*ast.RangeStmt); ok {
+			if v, ok := rs.Value.(*ast.Ident); ok && an.ObjOf(info, v) == elem {
+				if id, ok := an.Unparen(rs.X).(*ast.Ident); ok {
+					list = an.ObjOf(info, id)
+				}
+			}
+		}
+		return true
+	})
+	if list == nil {
+		return false
+	}
+	var appends []ast.Node
+	srcOf := map[ast.Node]string{}
+	okShape := true
+	an.InspectOwn(f, func(n ast.Node) bool {
+		as, ok := n.(*ast.AssignStmt)
+		if !ok || len(as.Lhs) != 1 || len(as.Rhs) != 1 {
+			return true
+		}
+		id, ok := an.Unparen(as.Lhs[0]).(*ast.Ident)
+		if !ok || an.ObjOf(info, id) != list {
+			return true
+		}
+		call, ok := an.Unparen(as.Rhs[0]).(*ast.CallExpr)
+		if !ok || !an.IsCallTo(info, call, "builtin.append") || len(call.Args) != 2 || call.Ellipsis.IsValid() {
+			okShape = false
+			return true
+		}
+		if first, ok := an.Unparen(call.Args[0]).(*ast.Ident); !ok || an.ObjOf(info, first) != list {
+			okShape = false
+		}
+		appends = append(appends, as)
+		srcOf[as] = an.Str(call.Args[1])
+		return true
+	})
+	if !okShape || len(appends) == 0 {
+		return false
+	}
+	pr := p.ProbeFn(f, appends, an.Hooks{})
+	c.States += pr.X.Visited
+	for _, a := range appends {
+		if len(pr.At[a]) == 0 {
+			return false
+		}
+		for _, st := range pr.At[a] {
+			if !an.FactIs(st, srcOf[a]+".typ == itemText", true) {
+				return false
+			}
+		}
+	}
+	return true
 }
 
 func caseClauseOf(fn *an.Fn, name string) *ast.CaseClause { return caseClause(fn, name) }
